@@ -19,7 +19,8 @@ KeyArgs == {"r", "R", "ei"}            \* encryption: -r RECIPIENT | -R FILE | -
 Inputs == {"file", "pipe", "missing"}
 Damages == {"none", "hdrbit", "mac", "paybit_first", "paybit_last", "trunc", "wrongkey", "garbage"}
 \* "devnull": -o /dev/null (a character device that takes everything); "fifo": -o names a FIFO somebody reads from
-Outs == {"stdout", "new", "existing", "missingdir", "underfile", "same_input", "same_keyfile", "devfull_o", "devfull_stdout", "limit", "devnull", "fifo"}
+\* "tty": no -o and standard output is a terminal; "tty_dash": the same with an explicit "-o -"
+Outs == {"stdout", "new", "existing", "missingdir", "underfile", "same_input", "same_keyfile", "devfull_o", "devfull_stdout", "limit", "devnull", "fifo", "tty", "tty_dash"}
 Spellings == {"same", "dot", "dotdot", "abs", "dslash"}
 Limits == {"zero", "one", "mid", "lastbutone", "exact"}     \* where a size-limited destination stops accepting bytes
 FlagErrs == {"none", "e_and_d", "a_with_d", "p_with_d", "r_with_d", "i_without_e", "no_recipient", "p_with_r", "two_inputs"}
@@ -29,7 +30,7 @@ Cmd(op, key, keyarg, armor, input, size, damage, out, spelling, limit, flagerr) 
    out |-> out, spelling |-> spelling, limit |-> limit, flagerr |-> flagerr]
 
 \* the enumerated command space, built family by family so that meaningless combinations are never formed
-PlainOuts == Outs \ {"same_input", "same_keyfile", "limit"}
+PlainOuts == Outs \ {"same_input", "same_keyfile", "limit", "tty", "tty_dash"}
 OutVariants(op, key, ka, inp) ==
      {[out |-> o, spelling |-> "same", limit |-> "zero"] : o \in (IF key = "scrypt" THEN {"new", "existing", "missingdir"} ELSE PlainOuts)}
   \cup {[out |-> "limit", spelling |-> "same", limit |-> l] : l \in Limits}
@@ -39,6 +40,8 @@ DamagesFor(sz) == {"none", "hdrbit", "mac", "paybit_first", "wrongkey", "garbage
 EncCommands == {Cmd("enc", key, ka, ar, inp, sz, "none", ov.out, ov.spelling, ov.limit, "none") :
                   key \in KeyTypes, ka \in KeyArgs, ar \in BOOLEAN, inp \in {"file", "pipe"}, sz \in Sizes,
                   ov \in UNION {OutVariants("enc", k2, ka2, i2) : k2 \in KeyTypes, ka2 \in KeyArgs, i2 \in {"file", "pipe"}}}
+               \cup {Cmd("enc", key, "r", ar, "file", 1, "none", o, "same", "zero", "none") :
+                  key \in KeyTypes \ {"scrypt"}, ar \in BOOLEAN, o \in {"tty", "tty_dash"}}
 DecCommands == {Cmd("dec", key, "r", ar, inp, sz, dmg, ov.out, ov.spelling, ov.limit, "none") :
                   key \in KeyTypes, ar \in BOOLEAN, inp \in {"file", "pipe"}, sz \in Sizes, dmg \in Damages,
                   ov \in UNION {OutVariants("dec", k2, "r", i2) : k2 \in KeyTypes, i2 \in {"file", "pipe"}}}
@@ -71,7 +74,8 @@ CopyReach == CASE cmd.op = "enc" -> "all"
                [] cmd.damage = "trunc" -> (IF cmd.size >= 2 THEN "some" ELSE "none")
                [] OTHER -> "none"
 \* the destination: can it be created, and how much does it take?
-DestCreate == cmd.out \notin {"missingdir", "underfile"}
+\* (binary output to a terminal is refused before anything is written unless asked for with "-o -")
+DestCreate == cmd.out \notin {"missingdir", "underfile"} /\ ~(cmd.out = "tty" /\ cmd.op = "enc" /\ ~cmd.armor)
 DestTakes == CASE cmd.out \in {"devfull_o", "devfull_stdout"} -> "nothing"
                [] cmd.out = "limit" -> (IF cmd.limit = "exact" THEN "all" ELSE IF cmd.limit = "zero" THEN "nothing" ELSE "some")
                [] OTHER -> "all"
@@ -87,7 +91,7 @@ NeedsBytes == ~(cmd.op = "dec" /\ cmd.size = 0)
 \* the first write creates (or truncates) the output; decrypt forces that write even for an empty plaintext
 Open == /\ phase = "open"
         /\ IF ~DestCreate THEN Fail
-           ELSE /\ outState' = (IF cmd.out \in {"stdout", "devfull_stdout"} THEN outState ELSE "partial")
+           ELSE /\ outState' = (IF cmd.out \in {"stdout", "devfull_stdout", "tty", "tty_dash"} THEN outState ELSE "partial")
                 /\ phase' = "copy" /\ UNCHANGED <<cmd, exit>>
 Copy == /\ phase = "copy"
         /\ IF (DestTakes = "all" \/ ~NeedsBytes) /\ CopyReach = "all"
